@@ -122,7 +122,7 @@ func c29SrGen(r *vu.RNG, n int, emit func(string)) {
 		one(true, pk, msg, old) // honest schnorrkel 0.1.1 signature
 		unmarked := append([]byte{}, cur...)
 		unmarked[63] &= 127
-		one(true, pk, msg, unmarked) // current scheme with the marker bit cleared
+		both(pk, msg, unmarked) // current scheme with the marker bit cleared
 		oldMarked := append([]byte{}, old...)
 		oldMarked[63] |= 128
 		one(true, pk, msg, oldMarked) // pre-audit signature with the marker bit set
